@@ -419,11 +419,8 @@ def r6_rules(rep, prog):
 
 
 def check_config(rep, prog):
-    r1_rules(rep, prog)
-    r2_rules(rep, prog)
-    r3_rules(rep, prog)
-    r4_r5_rules(rep, prog)
-    r6_rules(rep, prog)
+    for g in (r1_rules, r2_rules, r3_rules, r4_r5_rules, r6_rules):
+        rep.guard(g, rep, prog)
 
 
 def check(rep, args):
